@@ -248,7 +248,11 @@ def _compile_files_cache(filenames,
                          encoding,
                          cache_dir,
                          numeric_enums):
-    key = [codec.encode('ascii'), str(bool(numeric_enums)).encode('ascii')]
+    key = [
+        codec.encode('ascii'),
+        str(bool(numeric_enums)).encode('ascii'),
+        repr(any_defined_by_choices).encode('utf-8')
+    ]
 
     if isinstance(filenames, str):
         filenames = [filenames]
